@@ -241,7 +241,7 @@ fn double_quoted_string_program_data(input: &[u8]) -> ParseResult<Value<'_>> {
 /// Parses arbitrary 8 bit binary data.
 fn arbitrary_program_data(input: &[u8]) -> ParseResult<Value<'_>> {
     let (i1, _) = tag(b'#')(input)?;
-    let (i2, digits) = satisfy(|c| (b'1'..b'9').contains(&c))(i1)
+    let (i2, digits) = satisfy(|c| (b'1'..=b'9').contains(&c))(i1)
         .map(|(i, value)| (i, (value - b'0') as usize))?;
 
     if i2.len() < digits {
